@@ -658,6 +658,8 @@ def parse_cleanly(data, time_limit=10.0):
     from suit_generator.suit.envelope import SuitEnvelopeTagged
     ok = _allowed_native()
     t0 = time.time()
+    import sys
+    sys.unraisablehook = lambda *a: None  # a RecursionError inside a finaliser / repr would otherwise dump the whole input to stderr
     try:
         SuitEnvelopeTagged.from_cbor(data).to_obj()
     except ok:
